@@ -1,9 +1,10 @@
 (* Extraction of the executable models to OCaml (ExtrOcamlBasic only; N/Z/positive stay inductive). *)
-From VF Require Import Bytes Meta.
+From VF Require Import Bytes Meta Lock.
 From Coq Require Import ExtrOcamlBasic.
 Extraction Language OCaml.
 Set Extraction KeepSingleton.
 Extraction "model.ml"
   Z.add Z.mul Z.sub Z.div Z.modulo Z.of_nat Z.to_nat Z.eqb Z.ltb Z.leb Z.quotrem
   le_encode le_decode
+  lock_apply run_labels thread_step lk_idle
   valid_slot checksum_of read_valid_meta read_valid_meta_win choose decode_header encode_header.
